@@ -603,7 +603,8 @@ func genRkn(r *vh.Rng, g *valgen.Gen) (c *rnCase, specBacked bool, class string)
 	out := "key"
 	switch {
 	case path == "schema" && !tablePresent:
-		specBacked, out = false, "nometa"
+		// ErrNoMetadata (theorem C09_routing_table_missing): no key is made up from a table of another spelling
+		out = "nometa"
 	case path == "schema" && unbound:
 		out = "nokey"
 	default:
